@@ -4,7 +4,7 @@ prof=${1:-debug}; flag=""; [ "$prof" = release ] && flag="--release"
 T=$(mktemp -d /tmp/orxfind.XXXX); trap "rm -rf $T" EXIT
 cd "$(dirname "$0")"
 CARGO_TARGET_DIR=$T cargo build --offline $flag --bins >/dev/null 2>$T/build.log || { cat $T/build.log; exit 2; }
-for b in f2_from_raw_parts f3_array_double_drop f4_vec_leak f5_iter_skip_wrap f6_overflow f7_chunk_zero f9_skip_leaks_elements w_counter_wrap; do
+for b in f10_range_skip_wrap f2_from_raw_parts f3_array_double_drop f4_vec_leak f5_iter_skip_wrap f6_overflow f7_chunk_zero f9_skip_leaks_elements w_counter_wrap; do
   out=$($T/$prof/$b 2>&1); rc=$?
   echo "[$prof] $b rc=$rc: $(echo "$out" | tail -1 | cut -c1-220)"
 done
